@@ -1253,7 +1253,10 @@ func Update() {
 				return nil
 			}
 			if desc.Public {
-				Add(name, desc)
+				// let Add read the description under its
+				// locks: the one we have just read might
+				// be older than the one it has
+				Add(name, nil)
 			}
 			return nil
 		},
